@@ -72,6 +72,9 @@ func daemonMain(self string) {
 	os.WriteFile(tmp, []byte(fmt.Sprintf("%d %s %s", os.Getpid(), token, self)), 0o644)
 	os.Rename(tmp, marker)
 	daemon.Done()
+	if os.Getenv("C20_SHORT_LIVED") != "" {
+		return // a one-shot daemon: its work was done before Done(), it reports and leaves
+	}
 	// life after Done(): the launcher is going away now; an ordinary daemon logs something and carries on
 	time.Sleep(10 * time.Millisecond)
 	fmt.Fprintln(os.Stderr, "c20 daemon: started")
@@ -123,6 +126,7 @@ type kase struct {
 	cleansEnv        int  // the handler changes its own environment before Done(): 1 unsets ENV_DAEMON_*, 2 os.Clearenv()
 	relativeArgv0    bool // the caller child is started through a relative path (./prog)
 	nested           bool // the launched daemon is a supervisor: it launches a worker daemon itself before Done()
+	shortLived       bool // the handler returns right after Done(): Launch still reports the pid it ran under
 }
 
 func (k kase) name(i int) string {
@@ -152,6 +156,9 @@ func (k kase) String() string {
 	}
 	if k.nested {
 		s += " daemonLaunchesAWorkerDaemonItself"
+	}
+	if k.shortLived {
+		s += " handlerReturnsRightAfterDone"
 	}
 	return s
 }
@@ -202,6 +209,9 @@ func runCase(k kase) string {
 	env := map[string]string{"C20_DIR": dir, "C20_TOKEN": token, "C20_DELAY_MS": strconv.Itoa(k.delayMs), "VERIF_DAEMON_LAUNCH_PAUSE_MS": strconv.Itoa(k.pauseMs), "C20_CLEANS_ENV": strconv.Itoa(k.cleansEnv)}
 	if k.nested {
 		env["C20_NESTED"] = daemonNames[len(daemonNames)-1]
+	}
+	if k.shortLived {
+		env["C20_SHORT_LIVED"] = "1"
 	}
 	type result struct {
 		pid       int
@@ -329,6 +339,9 @@ func runCase(k kase) string {
 		if want := fmt.Sprintf("%d %s %s", r.pid, token, k.name(i)); string(mb) != want {
 			return fmt.Sprintf("launch #%d of handler %q: marker of pid %d holds %q, want %q (pid, token, name of the handler that ran)", i, k.name(i), r.pid, mb, want)
 		}
+		if k.shortLived {
+			continue // the process may be gone already: Launch reported it, and what it did before Done() is there
+		}
 		st, err := procStat(r.pid)
 		if err != nil || st.state == "Z" || st.state == "X" {
 			return fmt.Sprintf("launch #%d: the daemon (pid %d) is not running after Launch returned (state %q, err %v)", i, r.pid, st.state, err)
@@ -366,6 +379,9 @@ func runCase(k kase) string {
 				return fmt.Sprintf("launch #%d: the worker daemon (pid %d) launched from inside the daemon is not running", i, npid)
 			}
 		}
+	}
+	if k.shortLived {
+		return ""
 	}
 	// the daemons keep running after the caller has gone: each one gets past its first output after Done()
 	for i, r := range results {
@@ -484,7 +500,7 @@ func TestGrid(t *testing.T) {
 				if !rt.Thorough() && child && d == 150 && p == 150 {
 					continue // keep the quick tier short; covered by the thorough tier
 				}
-				k := kase{delayMs: d, pauseMs: p, concurrent: 1, childCaller: child, afterFailed: (d+p)%80 == 45, cleansEnv: idx % 3, relativeArgv0: child && idx%4 == 1}
+				k := kase{delayMs: d, pauseMs: p, concurrent: 1, childCaller: child, afterFailed: (d+p)%80 == 45, cleansEnv: idx % 3, relativeArgv0: child && idx%4 == 1, shortLived: idx%5 == 2}
 				if msg := runCase(k); msg != "" {
 					if strings.HasPrefix(msg, "harness:") {
 						rt.Inconclusivef(t, "%s: %s", k, msg)
@@ -534,6 +550,7 @@ func TestGenerated(t *testing.T) {
 		k.cleansEnv = rapid.SampledFrom([]int{0, 0, 0, 1, 2}).Draw(t, "handlerCleansEnv")
 		k.relativeArgv0 = k.childCaller && rapid.IntRange(0, 2).Draw(t, "relativeArgv0") == 0
 		k.nested = k.cleansEnv == 0 && rapid.IntRange(0, 3).Draw(t, "daemonLaunchesAWorker") == 0
+		k.shortLived = !k.nested && rapid.IntRange(0, 3).Draw(t, "handlerReturnsAfterDone") == 0
 		msg := runCase(k)
 		if strings.HasPrefix(msg, "harness:") {
 			ev.Inconclusive(1)
@@ -559,6 +576,9 @@ func TestGenerated(t *testing.T) {
 		}
 		if k.nested {
 			ev.Label("daemon_launches_a_worker_daemon_before_Done")
+		}
+		if k.shortLived {
+			ev.Label("handler_returns_right_after_Done")
 		}
 		ev.Case(k.nontrivial(), ev.Hash(k.String()), k.String)
 	})
